@@ -15,6 +15,7 @@ import (
 type faultyManager struct {
 	in   keys.ManagerInterface
 	plan *seams.FaultPlan
+	a    *Authority
 }
 
 func (m *faultyManager) str(site string, mutating bool, f func() (string, error)) (string, error) {
@@ -57,6 +58,7 @@ func (m *faultyManager) CertificateTemplate(ctx context.Context, issuer *x509.Ce
 }
 
 func (m *faultyManager) DestroyKeyVersion(ctx context.Context, name string) error {
+	m.a.Destroys = append(m.a.Destroys, DestroyRec{Name: name, AfterFinalizeOK: m.a.FinalizeOK})
 	return m.plan.Guard("km.DestroyKeyVersion("+name+")", true, func() error { return m.in.DestroyKeyVersion(ctx, name) })
 }
 
@@ -97,6 +99,7 @@ func (s *faultySigner) Sign(ctx context.Context, name string, d styp.Digest, opt
 type faultyCA struct {
 	in   styp.CertificateAuthority
 	plan *seams.FaultPlan
+	a    *Authority
 }
 
 func (c *faultyCA) bytesCall(site string, f func() ([]byte, error)) ([]byte, error) {
@@ -138,7 +141,13 @@ func (c *faultyCA) PrimarySigningKeyVersion(ctx context.Context) (string, error)
 func (c *faultyCA) NewMutation() styp.CertificateAuthorityMutation { return c.in.NewMutation() }
 
 func (c *faultyCA) Finalize(ctx context.Context, m styp.CertificateAuthorityMutation) error {
-	return c.plan.Guard("ca.Finalize", true, func() error { return c.in.Finalize(ctx, m) })
+	return c.plan.Guard("ca.Finalize", true, func() error {
+		err := c.in.Finalize(ctx, m)
+		if err == nil {
+			c.a.FinalizeOK = true
+		}
+		return err
+	})
 }
 
 func (c *faultyCA) PrepareResources(ctx context.Context) error {
